@@ -13,7 +13,7 @@ MEMBERS = ['constructor', 'public_function', 'internal_function', 'modifier', 'f
 VAR_KINDS = [('uint256', None, False), ('address', None, True), ('uint256', 'constant', True), ('uint256', 'immutable', False),
              ('mapping', None, False), ('string', None, False), ('user', None, False), ('bool', None, False),
              ('address_payable', None, False), ('bytes32', None, False), ('int256', None, False), ('uint8', None, False), ('bytes', None, False)]
-QUICK_STMT_POS = ['statement', 'if_body', 'for_update', 'call_argument', 'power_exponent', 'catch_body', 'unchecked_block',
+QUICK_STMT_POS = ['statement', 'if_body', 'for_update', 'for_update_without_body', 'call_argument', 'power_exponent', 'catch_body', 'unchecked_block',
                   'prefix_increment_operand', 'ternary_branch', 'initialiser']
 
 
